@@ -42,11 +42,13 @@ class CHECK(core.Check):
     TECHNIQUE = ("Lean 4 theorems on the generic scheduler model (stop condition = status of the scheduled taskers; sweep = one ABORT per "
                  "remaining entry; outcome by ending) and on the concrete framer environment (exitAll exits the entered frames bottom-up; "
                  "entered-frame bookkeeping invariant), + differential correspondence over every crash point of generated programs")
-    LEVEL_TEXT = ("Proof on the model: C03_more_iff_live, C03_tick_ending, C03_stops_first_idle_tick (the loop goes on exactly while a "
-                  "scheduled tasker is started or running), C03_sweep_events, C03_aborted_not_swept, C03_outcome (exceptions other than "
-                  "KeyboardInterrupt are re-raised, after the sweep), C03_abort_exits_bottom_up, C03_entered_empty_after_abort are full; "
-                  "C03_sweep_aborts_each_once_partial is partial (hypothesis: no ABORT handler raises) with "
-                  "C03_counterexample_sweep_crash for known finding D03a.")
+    LEVEL_TEXT = ("Proof on the model. Generic scheduler (any time type, any tasker environment, so every crash point): "
+                  "C03_more_iff_live, C03_tick_ending, C03_stops_first_idle_tick (the loop goes on exactly while a scheduled tasker is "
+                  "started or running; all ways a pass can end), C03_sweep_events (one ABORT per remaining entry, in deque order, up to "
+                  "a raising handler), C03_aborted_not_swept, C03_outcome (KeyboardInterrupt returns, every other exception leaves run "
+                  "after the sweep), C03_loop_exception_is_from_send are full; C03_sweep_aborts_each_once_partial is partial (region "
+                  "sweepRaised) with C03_counterexample_sweep_crash for known finding D03a. Concrete framers: C03_loopEnv_faithful, "
+                  "C03_abort_exits_bottom_up, C03_stop_exits_bottom_up, C03_entered_empty_at_return are full.")
     LEVEL_NOTE = ("Trusted: Lean kernel; axioms propext, Classical.choice, Quot.sound; the hand transcription of skedding.py and of the "
                   "framer/frames subset validated by the correspondence over every crash point; the crash-injection doubles.")
 
@@ -127,11 +129,22 @@ class CHECK(core.Check):
                 c2["crash"] = [k, kind2, name2]
                 yield c2
 
+    _programs = 0
+    _points = 0
+
     def generate(self, rng, n, tier):
         for _ in range(n):
             base = self.gen_program(rng)
+            self._programs += 1
             for c in self.crash_points(base, tier, rng.randrange(5)):
+                if c.get("crash") or c.get("bcrash"):
+                    self._points += 1
                 yield c
+
+    def extra_evidence(self):
+        return {"programs": self._programs, "crash_points_run": self._points,
+                "explanation": "every generated program is run at each of its crash points (k-th executed action, each pass "
+                               "boundary, and the last actions of each boundary-interrupted run, i.e. inside the abort sweep)"}
 
     # ------------------------------------------------------------------ the two sides
     def impl(self, case):
@@ -272,7 +285,8 @@ class CHECK(core.Check):
             return False
         fired = any(("raise:" in l) for l in out if l.startswith("E ")) or (
             case.get("bcrash") is not None and ticks == case["bcrash"][0] + 1)
-        return fired or ticks >= 3
+        exits = sum(1 for l in out if l.startswith("T m ") and l.endswith(".x"))
+        return fired or (ticks >= 3 and exits >= 2)
 
     def bucket(self, case, out):
         kind = "nocrash"
